@@ -119,7 +119,13 @@ class BranchingList:
                 id_old = self._get_case_id()
                 path_old = self.cases[id_old].path
             if node.case_type==Keyword.CASE:
-                pass
+                # a new block ends the open blocks of another path that start at its own indent (compact names: 'a.@case', 'b.@case')
+                while self.state and self.cases[id_old].indent==node.indent and not path_new.startswith(path_old):
+                    self._close_branch()
+                    path_old = ''
+                    if self.state:
+                        id_old = self._get_case_id()
+                        path_old = self.cases[id_old].path
             elif node.case_type==Keyword.ELSE and self.cases:
                 # an @else continues an open block of its own level that has no @else yet
                 open_paths = {self.cases[self.branches[b].cases[-1]].path: b for b in self.state}
